@@ -20,6 +20,7 @@ import (
 	"verif/harness/evid"
 	"verif/harness/netsim"
 	"verif/harness/pbt"
+	"verif/harness/ref"
 	"verif/harness/rig"
 )
 
@@ -53,6 +54,7 @@ type C20Case struct {
 	StopKind  string    `json:"stop_kind"` // none | session-stop | handler-stop | serve-close
 	StopAt    int64     `json:"stop_at"`
 	Horizon   int64     `json:"horizon"`
+	Siblings  int       `json:"siblings"`    // acceptor: further connections accepted at the same moment, their sessions built from the same session.Opts
 	LogonCbNs int64     `json:"logon_cb_ns"` // acceptor: virtual time the application's logon callback takes (senders and timers run meanwhile)
 }
 
@@ -93,6 +95,7 @@ func genC20(t *rapid.T) *C20Case {
 	c.StopAt = rapid.Int64Range(0, c.Horizon).Draw(t, "stopAt")
 	if c.Role == "acceptor" {
 		c.LogonCbNs = rapid.SampledFrom([]int64{0, 0, 1000, 1e6, 50e6}).Draw(t, "logonCbNs")
+		c.Siblings = rapid.SampledFrom([]int{0, 0, 1, 2}).Draw(t, "siblings")
 	}
 	return c
 }
@@ -179,20 +182,49 @@ func checkC20(c *C20Case, rec *evid.Rec) (vs []pbt.Violation) {
 				Stop()
 			}
 		}
-		ready := make(chan got, 1)
+		var gotsMu sync.Mutex
+		var gots []got
 		var ar *rig.AcceptorRig
 		var ir *rig.InitiatorRig
 		var conn *netsim.Conn
+		var siblings []*netsim.Conn
+		var seqMu sync.Mutex
+		inSeq := 1
+		next := func() string { seqMu.Lock(); defer seqMu.Unlock(); s := fmt.Sprint(inSeq); inSeq++; return s }
+		logon := func() []byte {
+			return (&rig.InMsg{Type: rig.TLogon, Seq: next(), Fields: []rig.Tok{rig.F(rig.TagEncryptMethod, "0"),
+				rig.F(rig.TagHeartBtInt, fmt.Sprint(c.N)), rig.F(rig.TagUsername, "alice"), rig.F(rig.TagPassword, "secret")}}).Bytes()
+		}
 		if c.Role == "acceptor" {
+			opts := rig.OptsFor(cfg) // one options object for the sessions of all connections, as acceptor applications do
 			ar = rig.StartAcceptor(c.Buf, time.Minute, func(h simplefixgo.AcceptorHandler) {
-				s, err := rig.AcceptorSession(cfg, h, store, store)
+				st := memory.NewStorage()
+				s, err := rig.AcceptorSessionOpts(opts, cfg, h, st, st)
 				if err != nil {
 					panic(err)
 				}
-				ready <- got{s, h}
+				// the connection on which the scenario's own peer ("PEER") speaks first is the main one
+				var once sync.Once
+				h.HandleIncoming(simplefixgo.AllMsgTypes, func(b []byte) bool {
+					once.Do(func() {
+						if snd, _ := ref.Lookup(b, rig.TagSenderCompID); snd == "PEER" {
+							gotsMu.Lock()
+							gots = append(gots, got{s, h})
+							gotsMu.Unlock()
+						}
+					})
+					return true
+				})
 			})
+			// the scenario's own connection and its siblings are pending at the listener at the
+			// same moment: their sessions are built concurrently, from the same options object
 			conn = netsim.NewConn("c")
 			ar.L.Connect(conn)
+			for k := 0; k < c.Siblings; k++ {
+				sc := netsim.NewConn(fmt.Sprint("sibling", k))
+				siblings = append(siblings, sc)
+				ar.L.Connect(sc)
+			}
 		} else {
 			ir = rig.NewInitiatorRig(c.Buf, time.Minute)
 			conn = ir.C
@@ -201,18 +233,28 @@ func checkC20(c *C20Case, rec *evid.Rec) (vs []pbt.Violation) {
 			if err != nil {
 				panic(err)
 			}
-			ready <- got{s, ir.H}
+			gots = append(gots, got{s, ir.H})
 		}
-		g := <-ready
-		sess := g.s
-		var seqMu sync.Mutex
-		inSeq := 1
-		next := func() string { seqMu.Lock(); defer seqMu.Unlock(); s := fmt.Sprint(inSeq); inSeq++; return s }
-		logon := func() []byte {
-			return (&rig.InMsg{Type: rig.TLogon, Seq: next(), Fields: []rig.Tok{rig.F(rig.TagEncryptMethod, "0"),
-				rig.F(rig.TagHeartBtInt, fmt.Sprint(c.N)), rig.F(rig.TagUsername, "alice"), rig.F(rig.TagPassword, "secret")}}).Bytes()
-		}
+		synctest.Wait()
 		conn.Feed(logon())
+		synctest.Wait()
+		// which session serves the scenario's own connection
+		var g got
+		gotsMu.Lock()
+		if len(gots) > 0 {
+			g = gots[0]
+		}
+		gotsMu.Unlock()
+		if g.s == nil {
+			panic("harness: the scenario's own connection was not identified")
+		}
+		sess := g.s
+		for k, sc := range siblings {
+			act("sibling-connection")
+			sc.Feed((&rig.InMsg{Type: rig.TLogon, Seq: "1", Sender: fmt.Sprint("SIB", k), Target: "LIB", Fields: []rig.Tok{rig.F(rig.TagEncryptMethod, "0"),
+				rig.F(rig.TagHeartBtInt, fmt.Sprint(c.N)), rig.F(rig.TagUsername, "alice"), rig.F(rig.TagPassword, "secret")}}).Bytes())
+			sc.Feed((&rig.InMsg{Type: rig.TTestRequest, Seq: "2", Sender: fmt.Sprint("SIB", k), Target: "LIB", Fields: []rig.Tok{rig.F(rig.TagTestReqID, "s")}}).Bytes())
+		}
 		synctest.Wait()
 		t0 := time.Now()
 		var wg sync.WaitGroup
@@ -340,6 +382,9 @@ func checkC20(c *C20Case, rec *evid.Rec) (vs []pbt.Violation) {
 			ir.I.Close()
 		}
 		conn.PeerClose()
+		for _, sc := range siblings {
+			sc.PeerClose()
+		}
 		time.Sleep(rig.Settle(c.N) + time.Second)
 	})
 	if trouble != "" {
@@ -365,6 +410,9 @@ func checkC20(c *C20Case, rec *evid.Rec) (vs []pbt.Violation) {
 	rec.Hist("stop:" + c.StopKind)
 	if c.LogonCbNs > 0 {
 		rec.Hist("slow-logon-callback")
+	}
+	if c.Siblings > 0 {
+		rec.Hist("sibling-connections-sharing-opts")
 	}
 	for _, k := range kinds {
 		rec.Hist("activity:" + k)
